@@ -322,7 +322,7 @@ pub trait Suite: Sync {
     fn slogin_finish(&self, st: &Blob, fin: &Blob) -> R<Vec<u8>>;
     /// decode through the blob's codec, encode through `to`
     fn recode(&self, kind: Kind, b: &Blob, to: Codec) -> R<Blob>;
-    /// decode both and compare the typed objects with the library's own `==`
+    /// decode both and compare the typed objects with the library's own `==` and `!=` (true if either says "same")
     fn same(&self, kind: Kind, a: &Blob, b: &Blob) -> R<bool>;
     /// Execute `ops` one after the other on ONE ServerSetup object (deserialized once) and on password-file objects
     /// that stay in memory; returns each operation's outputs
@@ -428,7 +428,10 @@ macro_rules! same_arm {
     ($ty:ty, $a:expr, $b:expr) => {{
         let x: $ty = load($a, |x| <$ty>::deserialize(x))?;
         let y: $ty = load($b, |x| <$ty>::deserialize(x))?;
-        Ok(x == y)
+        // `==` and `!=` must be each other's negation; an inconsistent pair is reported as "equal" (the worse reading)
+        #[allow(clippy::nonminimal_bool)]
+        let (e, n) = (x == y, x != y);
+        Ok(e || !n)
     }};
 }
 
